@@ -230,12 +230,7 @@ def hist_part(ctx):
 
     alld = divs + sdivs
     l2only = [d for d in alld if not any(c in L1 for c in d["div"]["classes"])]
-    if l2only:
-        d = l2only[0]
-        raise vlib.MachineryError(
-            "%d histories diverge from the model without violating the property as stated "
-            "(the model's sharing rules for unfrozen content do not describe this tree); first: %s -> %s %s" %
-            (len(l2only), [o[0] for o in d["ops"]], d["div"]["classes"], (d["div"].get("detail") or [""])[:2]))
+    alld = [d for d in alld if any(c in L1 for c in d["div"]["classes"])]
     groups = collections.OrderedDict()
     for d in alld:
         names = [o[0] + ("@self" if o[2] and o[2] == o[1] else "") for o in d["ops"][:d["div"]["step"] + 1]]
@@ -270,6 +265,18 @@ def hist_part(ctx):
             raise vlib.MachineryError("shrunk history for %s not reproducible" % sig)
         what = "%s  =>  %s" % ("; ".join(s["src"] for s in rp["steps"]), "; ".join(x["div"]["detail"][:2]))
         ctx.violation(sig, what[:600], {"kind": "hist", "primary": rp["primary"], "steps": rp["steps"], "ops": rp["ops"]})
+    if l2only:
+        # divergences that are not property-level failures: the model's sharing rules for unfrozen content do not describe
+        # this tree.  That is a machinery failure - unless the same run established property-level violations that are
+        # not listed findings (the tree is then wrong in a way the property forbids, and that is what gets reported)
+        d = l2only[0]
+        msg = ("%d histories diverge from the model without violating the property as stated "
+               "(the model's sharing rules for unfrozen content do not describe this tree); first: %s -> %s %s" %
+               (len(l2only), [o[0] for o in d["ops"]], d["div"]["classes"], (d["div"].get("detail") or [""])[:2]))
+        openk = {k["signature"] for k in vlib.load_known() if k.get("status") == "open" and k["property"] == "C20"}
+        if all(v[0] in openk for v in ctx.violations):
+            raise vlib.MachineryError(msg)
+        ctx.notes.append(msg)
     ctx.cov["histories"] = {
         "exhaustive_edges": summary["edges"], "conform": summary["conform"], "divergent": summary["divergent"],
         "by_length": summary["by_len"], "by_last_operation": summary["by_op"],
